@@ -200,7 +200,10 @@ def _post_same(what):
 
 def run_c11g(chk, replay=None, prop='C11'):
     return gencheck.run_check(chk, replay, prop,
-                              lambda gb, rng, tier: _pairs(gb, rng, tier, lambda p, k: ('unchecked', 'sync') if p == 'binary' else None),
+                              lambda gb, rng, tier: _pairs(gb, rng, tier, lambda p, k: ('unchecked', 'sync') if p == 'binary' else None) +
+                              # messages of a richer writer schema: an ignored field (skipped by plain builds, retained by keep builds)
+                              # before a known one, read by the checked and by the unchecked codec
+                              _evolved_pairs(gb, rng, tier, cfgs=('plain', 'keep'), protos=('binary',), second=lambda p, k: ('unchecked', 'sync')),
                               lambda gb, c, o: [], post=_post_same('unchecked vs checked binary codec'),
                               rule="every emitted type x generated values: the same reference encoding decoded + re-encoded by the checked and by "
                                    "the unchecked binary codec (exact-size output buffer inside guard bytes): same value, same consumed bytes, "
@@ -248,19 +251,21 @@ def _malformed_pairs(gb, rng, tier):
     return cases
 
 
-def _evolved_pairs(gb, rng, tier):
+def _evolved_pairs(gb, rng, tier, cfgs=('plain',), protos=None, second=None):
     """well-formed messages of a RICHER writer schema (an ignored field of every kind -- scalars, structs, containers of
     structs -- written before a known field of the reader): decode vs decode_async of the reader, which both have to skip it"""
     from . import genevo
     sch = gb.schema
-    cfg = 'plain'
     cases = []
     k = 0
     no_key = genevo.key_type_names(sch)
-    for tname in sch.names_in(cfg):
+    protos = protos or genrun.ASYNC_PROTOS
+    for cfg, tname in [(c, t) for c in cfgs if c in gb.configs for t in sch.names_in(c)]:
         d = sch.types[tname]
         if d['kind'] != 'struct' or tname in no_key or not d['fields']:
             continue
+        if genrun.is_arg_swallow(sch, cfg, tname, 'sync'):
+            continue            # F-13a: keep builds of `args` structs swallow what follows
         ty = ('ref', tname)
         for rep in range(2 if tier == 'quick' else 8):
             W = sch.copy()
@@ -290,14 +295,14 @@ def _evolved_pairs(gb, rng, tier):
                 v = gengen.gen_value(rng, W, ty, 3)
                 if any(fid == nf['id'] for fid, _x in (v if isinstance(v, list) else [])) or True:
                     break
-            for proto in genrun.ASYNC_PROTOS:
+            for proto in protos:
                 k += 1
                 enc = genref.encode(W, ty, v, genrun.ref_proto(proto))
                 if len(enc) > 3000:
                     continue
                 key = 'e%d' % k
-                mode = 'async:' + genrun.SCHEDULES[k % len(genrun.SCHEDULES)]
-                twin = dict(line=genrun.case_line('renc', cfg, tname, proto, mode, enc), cfg=cfg, type=tname, proto=proto, mode=mode, key=key,
+                proto2, mode = second(proto, k) if second else (proto, 'async:' + genrun.SCHEDULES[k % len(genrun.SCHEDULES)])
+                twin = dict(line=genrun.case_line('renc', cfg, tname, proto2, mode, enc), cfg=cfg, type=tname, proto=proto2, mode=mode, key=key,
                             twin=True, nontrivial=True, model=False, evolved=gengen.ty_txt(nt))
                 first = dict(line=genrun.case_line('renc', cfg, tname, proto, 'sync', enc), cfg=cfg, type=tname, proto=proto, mode='sync', key=key,
                              nontrivial=True, model=False, evolved=gengen.ty_txt(nt), companions=[twin])
